@@ -28,6 +28,8 @@ for d in sorted(glob.glob(V + "/seeded/C*-*")):
     res = {"check": "./check %s quick (against a scratch copy with the patch applied)" % prop, "exit": rc,
            "verdict": "caught" if rc == 1 and clauses else ("harness-error" if rc == 2 else "missed" if rc == 0 else "rc=%d" % rc),
            "clauses": ["%s/%s %s of %s runs" % c for c in clauses][:6], "wall_s": round(time.time() - t0)}
+    if res["verdict"] != "caught":
+        res["output_tail"] = [l[:300] for l in out.splitlines() if not l.startswith("KNOWN-FINDING")][-12:]
     meta = json.load(open(d + "/meta.json"))
     meta["verif"] = res
     json.dump(meta, open(d + "/meta.json", "w"), indent=1)
